@@ -916,6 +916,109 @@ fn c17(tier: Tier) -> i32 {
 }
 
 // ---------------------------------------------------------------------------------------------
+// C12 (L3 half): negotiation on the GENERATED enum (which locale is the default, what get_all lists)
+// ---------------------------------------------------------------------------------------------
+
+const C12_ITEMS: &str = r##"
+use leptos_i18n::Locale as _;
+use leptos_i18n::reexports::icu::locid::LanguageIdentifier as Lid;
+
+fn c12_matches(s: &Lid, r: &Lid) -> bool {
+    (s.language.is_empty() || s.language == r.language)
+        && (s.script.is_none() || s.script == r.script)
+        && (s.region.is_none() || s.region == r.region)
+        && (s.variants.is_empty() || s.variants == r.variants)
+}
+
+/// every request list of length <= 2 over `universe`; the answer must follow the statement
+fn c12_check(configured_default: &str, universe: &[&str]) -> (u64, Vec<String>) {
+    let supported = Locale::get_all();
+    let mut problems = vec![];
+    let mut n = 0u64;
+    let mut lists: Vec<Vec<&str>> = vec![vec![]];
+    for a in universe {
+        lists.push(vec![a]);
+        for b in universe {
+            lists.push(vec![a, b]);
+        }
+    }
+    for reqs in &lists {
+        n += 1;
+        let answer = Locale::find_locale(reqs);
+        let parsed: Vec<Option<Lid>> = reqs.iter().map(|r| Lid::try_from_bytes(r.as_bytes()).ok()).collect();
+        let mut decisive = None;
+        for r in parsed.iter().flatten() {
+            if supported.iter().any(|s| c12_matches(s.as_langid(), r)) {
+                decisive = Some(r.clone());
+                break;
+            }
+        }
+        match decisive {
+            None => {
+                if answer.as_str() != configured_default {
+                    problems.push(format!("find_locale({reqs:?}): nothing matches, expected the configured default {configured_default}, got {}", answer.as_str()));
+                }
+            }
+            Some(r) => {
+                if !c12_matches(answer.as_langid(), &r) {
+                    problems.push(format!("find_locale({reqs:?}): the answer {} does not match the first matchable request {r}", answer.as_str()));
+                } else if let Some(exact) = supported.iter().find(|s| s.as_langid() == &r) {
+                    if *exact != answer {
+                        problems.push(format!("find_locale({reqs:?}): exact match {} passed over for {}", exact.as_str(), answer.as_str()));
+                    }
+                }
+            }
+        }
+    }
+    (n, problems)
+}
+"##;
+
+fn c12(tier: Tier) -> i32 {
+    let rep = Reporter::new("C12", "L3", tier);
+    // (configured list as written, default): default listed first / last / in the middle / not at all
+    let mut sets: Vec<(Vec<&str>, &str)> = vec![
+        (vec!["en", "fr"], "en"),
+        (vec!["fr", "en"], "en"),
+        (vec!["en", "fr"], "de"),
+        (vec!["fr", "de-DE", "en-GB"], "de"),
+        (vec!["en", "en-US", "en-GB", "fr-CA"], "en-GB"),
+    ];
+    if tier == Tier::Thorough {
+        sets.push((vec!["fr", "en", "de"], "en"));
+        sets.push((vec!["de-Latn-DE", "de-DE", "de"], "de-DE"));
+        sets.push((vec!["fr"], "en"));
+        sets.push((vec!["zh-Hant-TW", "zh-Hans", "sr-Cyrl"], "sr-Latn"));
+    }
+    let universe = ["en", "en-US", "en-GB", "fr", "fr-FR", "fr-CA", "de", "de-DE", "de-Latn-DE", "de-DE-1996", "zh-Hant", "sr", "it", "und", "en-us", "garbage!", " fr", ""];
+    let mut cases = vec![];
+    for (i, (names, default)) in sets.iter().enumerate() {
+        let mut cfg = Config::simple(default, names);
+        cfg.locales = Some(names.iter().map(|s| s.to_string()).collect());
+        let mut p = Project::new(cfg);
+        for l in p.cfg.effective_locales() {
+            p.set_file(None, &l, vec![("k".into(), st(&format!("[{l}]")))]);
+        }
+        let mut c = Case::new(&format!("c12_{}_{i}", tier.name()), p.clone());
+        c.probe.items.push_str(C12_ITEMS);
+        let list: Vec<String> = universe.iter().map(|n| format!("{n:?}")).collect();
+        c.add_summary(
+            format!("{{ let (n, problems) = c12_check({default:?}, &[{}]); p($ID, format!(\"checked={{}} problems={{}}\", n, problems.len())); for (i, pr) in problems.iter().take(40).enumerate() {{ p(1_000_000 + i, pr.clone()); }} }}", list.join(", ")),
+            format!("negotiation on the generated enum for locales {names:?} default {default}"),
+            "problems=0",
+        );
+        cases.push(c);
+    }
+    execute(&rep, "C12", cases);
+    rep.nontriv(sets.len() as u64);
+    rep.sample(json!({"locales": sets[2].0, "default": sets[2].1, "requests": ["ja", "garbage!"], "expected": "de"}));
+    let mut cov = serde_json::Map::new();
+    cov.insert("rule".into(), json!(format!("locale sets {sets:?} (default listed first / last / not at all) compiled through the proc-macro; inside the probe Locale::find_locale on every request list of length <= 2 over {universe:?}: no matchable request -> the CONFIGURED default; otherwise the answer matches the first matchable request (exactly if an exact match exists)")));
+    cov.insert("exhaustive".into(), json!(true));
+    rep.finish(cov, &["the relational oracle is the one of the RT engine, restated inside the probe"])
+}
+
+// ---------------------------------------------------------------------------------------------
 // C18: formatter output == direct ICU4X, for the locale being rendered; cache histories
 // ---------------------------------------------------------------------------------------------
 
@@ -1615,6 +1718,7 @@ fn main() {
         "c06" => c06(tier),
         "c07" => c07_c08(tier, "C07"),
         "c08" => c07_c08(tier, "C08"),
+        "c12" => c12(tier),
         "c13" => c13(tier),
         "c17" => c17(tier),
         "c18" => c18(tier),
